@@ -21,11 +21,11 @@ ANCHORS = ['phylib.io.alf:EphysAlfCreator.convert', 'phylib.io.alf:EphysAlfCreat
            'phylib.io.model:TemplateModel._load_spike_samples', 'phylib.io.model:TemplateModel._load_templates']
 RULE = ('Each case = a generated dense-template dataset {raw data int16/float32 in 1-3 files | absent} x '
         '{features dense/sparse | none} x {curated | uncurated, with a spikeless template first/middle/last} x '
-        '{2-probe table | none} x {KSLabel / other TSVs, temp_wh.dat, cluster_probes, (n,1) vectors} x label '
+        '{probe table with 1 or 2 probes whose ids need not be 0..n-1 | none} x {KSLabel / other TSVs, temp_wh.dat, cluster_probes, (n,1) vectors} x label '
         '{"", "lbl"} x unit factor {1, 2.5}, loaded and converted with the real EphysAlfCreator.convert. C13 '
         'oracle: file-table checker over the output directory (required files, first dimension per object, '
         'times in seconds / samples in samples, unique uuids, label in every object file name), equality of '
-        'the reloaded model with the source, refusal of the source directory as target, content hashes of '
+        'the reloaded model with the source, refusal of the source directory as target under several spellings (trailing separator, dot-dot, dot, symlink), content hashes of '
         'the source directory before/after (allowed: temp_wh.dat deleted, _phy_spikes_subset.* added). '
         'non-trivial = distinct conversions with a label, or curated clusters with an empty id, or raw data.')
 EXHAUSTIVE = {'quick': False, 'thorough': False}
@@ -77,14 +77,22 @@ def build(case):
         nc = spec.n_channels
         n0 = max(2, nc // 2)
         spec.probes = np.r_[np.zeros(n0, np.int32), np.ones(nc - n0, np.int32)]
+        labels = [(0, 1), (0, 2), (1, 3), (1, 1), (2, 2)][int(rng.integers(0, 5))]   # ids need not be 0..n-1
+        if labels[0] == labels[1]:
+            n0 = nc                       # a single probe, labelled with a non-zero id
+            spec.probes = np.full(nc, labels[0], dtype=np.int32)
+        else:
+            spec.probes = np.r_[np.full(n0, labels[0], np.int32), np.full(nc - n0, labels[1], np.int32)]
+        spec.notes['probe_labels'] = list(labels)
         m0 = rng.permutation(n0 + 1)[:n0]
         m1 = rng.permutation(nc - n0 + 1)[:nc - n0]
-        spec.notes['orig_maps'] = [m0.tolist(), m1.tolist()]
+        spec.notes['orig_maps'] = [m0.tolist(), m1.tolist()] if nc > n0 else [m0.tolist()]
         spec.channel_map = np.r_[m0, m1 + m0.max()].astype(np.int64)
         spec.n_channels_dat = int(spec.channel_map.max()) + 1 + opts['ncdat_extra']
         if spec.raw is not None:
             spec.raw = rng.integers(-300, 300, size=(spec.raw.shape[0], spec.n_channels_dat)).astype(spec.raw.dtype)
-        spec.positions[n0:, 0] += 500.
+        if nc > n0:
+            spec.positions[n0:, 0] += 500.
     ids = np.unique(spec.clusters)
     if rng.random() < 0.6:
         spec.tsv['cluster_KSLabel.tsv'] = 'cluster_id\tKSLabel\n' + ''.join(
@@ -143,13 +151,21 @@ def _run(case, ctx, d, which):
         # refusal of the source directory
         if which == 'C13':
             b0 = snapshot(src)
-            rr = call(c.convert, src, label=label, ampfactor=factor)
-            if rr.ok:
-                ctx.violation('same_directory_accepted', desc, 'convert() accepted the source directory as target', f0)
-                return
-            if snapshot(src) != b0:
-                ctx.violation('source_modified', desc, 'refused conversion into the source directory still changed it', f0)
-                return
+            link = os.path.join(d, 'link_to_src')
+            if not os.path.lexists(link):
+                os.symlink(src, link)
+            spellings = [src, src + os.sep, os.path.join(d, 'x', '..', os.path.basename(src)), link,
+                         os.path.join(src, '.')]
+            os.makedirs(os.path.join(d, 'x'), exist_ok=True)
+            target = spellings[case['seed'][-1] % len(spellings)]
+            for tgt in (src, target):
+                rr = call(c.convert, tgt, label=label, ampfactor=factor)
+                if rr.ok or snapshot(src) != b0:
+                    ctx.violation('same_directory_accepted', desc,
+                                  'convert() into the source directory spelled %r was %s' % (
+                                      tgt.replace(d, '<tmp>'), 'accepted' if rr.ok else 'refused only after writing into it (%r)' % rr.exc),
+                                  dict(f0, spelling='plain' if tgt == src else 'alias'))
+                    return
         before = snapshot(src)
         if mon.fs:
             mon.fs.watch(src)
@@ -242,7 +258,7 @@ def _oracle_c13(ctx, desc, f0, spec, src, out, m, m2, label, before, after, audi
                   ('spike_clusters', m2.spike_clusters, spec.clusters, {}),
                   ('spike_templates', m2.spike_templates, spec.spike_templates, {}),
                   ('channel_positions', m2.channel_positions, spec.positions, {})]
-        if spec.probes is None:
+        if spec.probes is None or len(set(spec.probes.tolist())) == 1:
             checks.append(('channel_mapping', m2.channel_mapping, spec.channel_map, {}))
         for name, got, exp, kw in checks:
             dd = same(got, exp, dtype=False, **kw)
